@@ -161,8 +161,11 @@ def plan(rng, quick):
     for w in (7, 8, 9, 10, 16):                               # dictionaries that FILL the index range of their width
         for v2 in (False, True):
             for runs in (("mix",) if quick else ("rle", "bp", "mix")):
-                out.append(("dict", big[(w + len(out)) % len(big)], {"index_width": w, "index_runs": runs, "v2": v2, "dict_fill": True,
-                                                                      "dict_shuffle": True}))
+                # "full": 2^w entries; "most": more than half but not all of them (an index read as a signed
+                # value then lands on a different entry, which a full dictionary would hide)
+                for fill in ("full", "most"):
+                    out.append(("dict", big[(w + len(out)) % len(big)], {"index_width": w, "index_runs": runs, "v2": v2, "dict_fill": fill,
+                                                                          "dict_shuffle": True}))
     wide32 = [x for x in DELTA_TYPES if x[0] in ("int32", "uint32")]
     wide64 = [x for x in DELTA_TYPES if x[0] in ("int64", "uint64")]
     for w in range(0, 65):                                   # delta miniblock widths 0..64
@@ -198,6 +201,8 @@ def gen_file(rng, idx, fam, t, forced):
         k = min(2 ** forced["index_width"], rng.choice([2, 5, 20]))
         if forced.get("dict_fill"):
             k = min(2 ** forced["index_width"], 700)
+            if forced["dict_fill"] == "most":
+                k = min(2 ** forced["index_width"] - 37, 700)
             n = max(n, 2 * k)
         pool = []
         for _ in range(200 if not forced.get("dict_fill") else 20 * k):
@@ -262,6 +267,9 @@ def gen_file(rng, idx, fam, t, forced):
     k = rng.choice([1, 1, 2, 3])
     cuts = sorted(set([0, n] + [rng.randrange(0, n + 1) for _ in range(k - 1)]))
     rgs = [(a, b) for a, b in zip(cuts, cuts[1:]) if b > a]
+    if forced.get("dict_fill") == "most":
+        rgs = [(0, n)]                      # one dictionary holding all k entries
+        ch.pop("fallback_after", None)
     choices = {"cols": [{"codec": "UNCOMPRESSED"}, ch]}
     return [rid, col], rgs, choices, {name: (tname, cells), "rid": ("int64", list(range(n)))}, n, pat
 
